@@ -1,9 +1,9 @@
 (* C09 -- property theorems (statements + [exact]); proofs in Proofs.v.
    [Gen.sites]/[Gen.recvs] is the access-mode table generated from serialization.go (after /repo commit
    aaa3b3c, which replaced the unchecked dereferences by the generated nil-safe getters). *)
-From Coq Require Import List NArith ZArith String Bool.
+From Coq Require Import List NArith ZArith String Bool Lia.
 From V.Base Require Import Hex BigEndian.
-From V.C09 Require Import Modes Gen Model Proofs.
+From V.C09 Require Import Modes Gen Model Proofs Roundtrip Json.
 Import ListNotations.
 
 Section Json.
@@ -63,6 +63,168 @@ Proof. intros p. destruct (group_total Gen.sites Gen.recvs eq_refl p) as [t E]. 
 Theorem C09_group_total_refuted : forall ss rs, grp_sites_safe ss rs = false -> exists p, group_of_pb ss rs p = Panic.
 Proof. exact group_deref_panics. Qed.
 
+(* ================= round trip and fixed point ================= *)
+
+(* Go's binary time form reproduces every time whose zone offset has whole minutes in int16 (not the UTC marker
+   -1 min) and a non-negative seconds part; seconds in int64, nanoseconds below 2^30 *)
+Theorem C09_time_roundtrip : forall t, time_ok t -> exists b, time_marshal t = Some b /\ time_unmarshal b = Some t.
+Proof. exact time_roundtrip. Qed.
+
+(* ... and does NOT reproduce a negative seconds part: parsing 02 .. ffc8 0f gives offset -3345 s, writing that
+   value and parsing again gives -3089 s; a zone 30 s west comes back as 226 s east *)
+Theorem C09_time_fixed_point_refuted :
+  let t := mk_time 62135596804 0 (Some (-3345)%Z) in
+  let b' := [2;0;0;0;14;119;145;247;4;0;0;0;0;255;201;211]%N in
+  time_unmarshal hostile_time_bytes = Some t /\ time_marshal t = Some b' /\
+  time_unmarshal b' = Some (mk_time 62135596804 0 (Some (-3089)%Z)).
+Proof. exact time_fixed_point_gap. Qed.
+
+Theorem C09_time_roundtrip_refuted :
+  let b := [2;0;0;0;14;220;229;232;0;0;0;0;0;0;0;226]%N in
+  time_marshal (mk_time 63835596800 0 (Some (-30)%Z)) = Some b /\
+  time_unmarshal b = Some (mk_time 63835596800 0 (Some 226%Z)).
+Proof. exact time_roundtrip_gap. Qed.
+
+Section JsonRT.
+Variable SubT : Type.
+Variable sub_enc : SubT -> bytes.
+Variable sub_dec : bytes -> SubT.
+Variable sub_nil : SubT.
+Variable ReqT : Type.
+Variable req_enc : ReqT -> bytes.
+Variable req_dec : bytes -> ReqT.
+Variable req_nil : ReqT.
+
+(* node-producible transaction: 32-byte hashes, a signature as BytesToSign builds it (or none), sub-transactions
+   that survive encoding/json. Serialising and parsing returns every field except the node-local
+   SocketRequestId (which transactionToPb does not write). *)
+Theorem C09_tx_roundtrip : forall t, tx_wf SubT sub_enc sub_dec t ->
+  tx_of_pb_body SubT sub_dec sub_nil Gen.sites (tx_to_pb SubT sub_enc t) = Ok (tx_wire_view SubT t).
+Proof. intros t. exact (tx_roundtrip SubT sub_enc sub_dec sub_nil Gen.sites t eq_refl). Qed.
+
+(* node-producible header: 32-byte hashes, non-nil Transactions/EvictedTxs (as every constructor in core/ builds
+   them), non-negative prove value (or nil), times in reproducible zones, request ids that survive
+   encoding/json: BlockHeaderToPb succeeds and PbToBlockHeader returns exactly the header (every field, nil vs
+   empty byte slices included) -- so every function of the header, GenHash included, is unchanged. *)
+Theorem C09_header_roundtrip : forall h, hdr_wf ReqT req_enc req_dec h ->
+  exists p, hdr_to_pb ReqT req_enc h = Some p /\ hdr_of_pb_body ReqT req_dec req_nil Gen.sites Gen.recvs p = Ok (Some h).
+Proof. exact (hdr_roundtrip ReqT req_enc req_dec req_nil Gen.sites Gen.recvs). Qed.
+
+Theorem C09_hash_stable : forall (X : Type) (gen_hash : hdr ReqT -> X) h, hdr_wf ReqT req_enc req_dec h ->
+  exists p h', hdr_to_pb ReqT req_enc h = Some p /\ hdr_of_pb_body ReqT req_dec req_nil Gen.sites Gen.recvs p = Ok (Some h') /\
+               gen_hash h' = gen_hash h.
+Proof.
+  intros X f h H. destruct (hdr_roundtrip ReqT req_enc req_dec req_nil Gen.sites Gen.recvs h H) as (p & A & B).
+  exists p, h. auto.
+Qed.
+
+Theorem C09_block_roundtrip : forall b, block_wf SubT sub_enc sub_dec ReqT req_enc req_dec b ->
+  exists p, block_to_pb SubT sub_enc ReqT req_enc b = Ok p /\
+            block_of_pb SubT sub_dec sub_nil ReqT req_dec req_nil Gen.sites Gen.recvs p = Ok (block_wire_view SubT ReqT b).
+Proof. intros b. exact (block_roundtrip SubT sub_enc sub_dec sub_nil ReqT req_enc req_dec req_nil Gen.sites Gen.recvs b eq_refl). Qed.
+
+(* fixed-point law: whatever the parser returns (from ANY pb message, hostile or not) is reproduced by the
+   next serialise/parse pass. Assumptions on encoding/json: re-encoding a decoded value decodes to it again. *)
+Hypothesis sub_idem : forall b, sub_dec (sub_enc (sub_dec b)) = sub_dec b.
+Hypothesis sub_nil_ok : sub_dec (sub_enc sub_nil) = sub_nil.
+Hypothesis req_idem : forall b, req_dec (req_enc (req_dec b)) = req_dec b.
+Hypothesis req_nil_ok : req_dec (req_enc req_nil) = req_nil.
+
+Theorem C09_tx_fixed_point : forall p t, tx_of_pb_body SubT sub_dec sub_nil Gen.sites p = Ok t ->
+  let t1 := tx_wire_view SubT t in
+  tx_of_pb_body SubT sub_dec sub_nil Gen.sites (tx_to_pb SubT sub_enc t) = Ok t1 /\
+  tx_of_pb_body SubT sub_dec sub_nil Gen.sites (tx_to_pb SubT sub_enc t1) = Ok t1.
+Proof.
+  intros p t E. pose proof (tx_of_pb_wf SubT sub_enc sub_dec sub_nil Gen.sites p t sub_idem sub_nil_ok E) as W.
+  split; [apply (tx_roundtrip SubT sub_enc sub_dec sub_nil Gen.sites t eq_refl W)|].
+  apply (tx_roundtrip SubT sub_enc sub_dec sub_nil Gen.sites (tx_wire_view SubT t) eq_refl W).
+Qed.
+
+(* for headers the law holds whenever the two parsed zone offsets are ones Go's binary time form reproduces
+   (see C09_time_fixed_point_refuted for the excluded case: known finding) *)
+Theorem C09_header_fixed_point : forall p h, pb_times_ok p ->
+  hdr_of_pb_body ReqT req_dec req_nil Gen.sites Gen.recvs p = Ok (Some h) ->
+  off_ok h.(b_PreTime _).(t_off) -> off_ok h.(b_CurTime _).(t_off) ->
+  exists p', hdr_to_pb ReqT req_enc h = Some p' /\ hdr_of_pb_body ReqT req_dec req_nil Gen.sites Gen.recvs p' = Ok (Some h).
+Proof.
+  intros p h B E O1 O2. apply (hdr_roundtrip ReqT req_enc req_dec req_nil Gen.sites Gen.recvs).
+  exact (hdr_of_pb_wf ReqT req_enc req_dec req_nil Gen.sites Gen.recvs p h req_idem req_nil_ok B E O1 O2).
+Qed.
+
+End JsonRT.
+
+(* ---- the GenHash preimage (json.Marshal of the `header` projection): field order and null / [] / value are
+   concrete, leaf encoders are parameters ---- *)
+Section Preimage.
+Variable ReqT : Type.
+Variable req_enc : ReqT -> bytes.
+Variable req_dec : bytes -> ReqT.
+Variable req_nil : ReqT.
+Variable j_num : N -> bytes.
+Variable j_hash : bytes -> bytes.
+Variable j_time : gtime -> bytes.
+Variable j_big : Z -> bytes.
+Variable j_b64 : bytes -> bytes.
+
+(* one serialise/parse pass maps ANY in-memory header with well-formed leaves to its normal form: identical
+   except that nil Transactions / EvictedTxs become empty lists *)
+Theorem C09_header_one_pass : forall h, hdr_wf_mem ReqT req_enc req_dec h ->
+  exists p, hdr_to_pb ReqT req_enc h = Some p /\
+            hdr_of_pb_body ReqT req_dec req_nil Gen.sites Gen.recvs p = Ok (Some (hdr_norm ReqT h)).
+Proof. exact (hdr_pass ReqT req_enc req_dec req_nil Gen.sites Gen.recvs). Qed.
+
+Theorem C09_genhash_preimage_stable : forall h,
+  (exists l, h.(b_Transactions _) = Some l) -> (exists l, h.(b_EvictedTxs _) = Some l) ->
+  json_hdr ReqT req_enc j_num j_hash j_time j_big j_b64 (hdr_norm ReqT h) = json_hdr ReqT req_enc j_num j_hash j_time j_big j_b64 h.
+Proof. exact (json_hdr_stable ReqT req_enc j_num j_hash j_time j_big j_b64). Qed.
+
+(* a header built with a nil Transactions or EvictedTxs slice (the node's constructors take care not to: "important!!"
+   in core/genesis_block.go) does not keep its GenHash preimage: null becomes [] *)
+Theorem C09_genhash_nil_slice_refuted : forall h, h.(b_Transactions _) = None \/ h.(b_EvictedTxs _) = None ->
+  json_hdr ReqT req_enc j_num j_hash j_time j_big j_b64 (hdr_norm ReqT h) <> json_hdr ReqT req_enc j_num j_hash j_time j_big j_b64 h.
+Proof. exact (json_hdr_drift ReqT req_enc j_num j_hash j_time j_big j_b64). Qed.
+
+End Preimage.
+
+(* groups: the wire carries everything but Ready/Work/DismissHeight (derived from CreateHeight after loading) *)
+Theorem C09_group_roundtrip : forall g, group_wf g ->
+  exists p, group_to_pb g = Ok p /\ group_of_pb Gen.sites Gen.recvs p = Ok (group_wire_view g).
+Proof. exact (group_roundtrip Gen.sites Gen.recvs). Qed.
+
+Theorem C09_group_header_fixed_point : forall p g, bytes_ok (ob p.(g_BeginTime)) ->
+  ghdr_of_pb_body Gen.sites p = Ok g -> off_ok g.(gh_BeginTime).(t_off) ->
+  ghdr_of_pb_body Gen.sites (ghdr_to_pb g) = Ok g.
+Proof.
+  intros p g B E O. pose proof (ghdr_of_pb_wf Gen.sites p g B E O) as W.
+  rewrite (ghdr_roundtrip Gen.sites g W).
+  revert E. unfold ghdr_of_pb_body.
+  repeat match goal with |- context [rd ?m ?x ?d] => destruct (rd m x d); cbn [bind]; [|discriminate] end.
+  intros E. apply Ok_inj in E. subst g. reflexivity.
+Qed.
+
+(* non-vacuity: a concrete header/transaction/group (JSON parts as their canonical text, identity codec) *)
+Example C09_example :
+  let t0 := mk_time 63774518400 123456789 (Some 28800%Z) in
+  let h32 := repeat 7%N 32 in
+  let h := mk_hdr bytes h32 5 h32 t0 (Some 0%Z) 9 (mk_time 63774518400 0 None) None (Some []) (Some [1%N]) 3 [110;117;108;108]%N
+                  (Some [(h32, h32)]) h32 h32 h32 (Some [0%N]) None (Some []) in
+  hdr_wf bytes (fun b => b) (fun b => b) h /\
+  (exists p, hdr_to_pb bytes (fun b => b) h = Some p /\
+             hdr_of_pb_body bytes (fun b => b) [110;117;108;108]%N Gen.sites Gen.recvs p = Ok (Some h)) /\
+  tx_wf bytes (fun b => b) (fun b => b) (mk_tx bytes [1%N] [] 1 [] [] [] 0 [91;93]%N h32 h32 (Some (repeat 1%N 65)) 1 2 [5%N] []).
+Proof.
+  cbv zeta.
+  assert (W : hdr_wf bytes (fun b => b) (fun b => b)
+    (mk_hdr bytes (repeat 7%N 32) 5 (repeat 7%N 32) (mk_time 63774518400 123456789 (Some 28800%Z)) (Some 0%Z) 9 (mk_time 63774518400 0 None) None (Some []) (Some [1%N]) 3
+       [110;117;108;108]%N (Some [(repeat 7%N 32, repeat 7%N 32)]) (repeat 7%N 32) (repeat 7%N 32) (repeat 7%N 32) (Some [0%N]) None (Some []))).
+  { unfold hdr_wf, time_ok, off_ok, hash32. cbn. repeat split; try lia; try discriminate.
+    - eexists; split; [reflexivity|]. repeat constructor.
+    - eexists; split; [reflexivity|]. constructor. }
+  split; [exact W|]. split.
+  - exact (hdr_roundtrip bytes (fun b => b) (fun b => b) _ Gen.sites Gen.recvs _ W).
+  - unfold tx_wf, hash32, sign_ok. cbn. repeat split.
+Qed.
+
 Print Assumptions C09_tx_total.
 Print Assumptions C09_txs_total.
 Print Assumptions C09_header_total.
@@ -71,3 +233,17 @@ Print Assumptions C09_group_total.
 Print Assumptions C09_tx_total_refuted.
 Print Assumptions C09_header_total_refuted.
 Print Assumptions C09_group_total_refuted.
+Print Assumptions C09_time_roundtrip.
+Print Assumptions C09_time_fixed_point_refuted.
+Print Assumptions C09_tx_roundtrip.
+Print Assumptions C09_header_roundtrip.
+Print Assumptions C09_hash_stable.
+Print Assumptions C09_block_roundtrip.
+Print Assumptions C09_tx_fixed_point.
+Print Assumptions C09_header_fixed_point.
+Print Assumptions C09_group_roundtrip.
+Print Assumptions C09_group_header_fixed_point.
+Print Assumptions C09_example.
+Print Assumptions C09_header_one_pass.
+Print Assumptions C09_genhash_preimage_stable.
+Print Assumptions C09_genhash_nil_slice_refuted.
